@@ -28,7 +28,7 @@ def run(ctx):
         "Go's own toolchain defines the meaning of the Go program (side (a))",
         "generator discipline keeps slice aliasing and gc's evaluation-order freedom unobservable (design_notes/C01.md)",
     ]
-    n_quick, n_thorough = 18, 240
+    n_quick, n_thorough = 24, 240
 
     def post(ctx, outdir, dis):
         st = ctx.coverage.get("distribution", {})
